@@ -671,7 +671,7 @@ var dgramClasses = []string{"valid", "mutate-byte", "mutate-resigned", "truncate
 func TestDiscv4Datagrams(t *testing.T) {
 	getTable(false)
 	getTable(true)
-	ev.Check(t, ev.N(9000, 1_200_000), func(t *rapid.T) {
+	ev.Check(t, ev.N(9000, 900_000), func(t *rapid.T) {
 		fail := failer(t)
 		lt := getTable(rapid.Bool().Draw(t, "netcompat"))
 		att := rapid.IntRange(0, len(attackers)-1).Draw(t, "attacker")
